@@ -147,7 +147,7 @@ inline void check_linear_xfm(Rep &R, const Case &c, const Pre &a, const Pre &b)
 
 // ---------------------------------------------------------------- one affine map (and its pairing with the partners)
 template <class L>
-inline void check_affine(Rep &R, const Case &c, const Pre &a, const ref::V &t, const std::vector<Partner> &ps)
+inline void check_affine(Rep &R, const Case &c, const Pre &a, const ref::V &t, const std::vector<Partner> &ps, int np)
 {
   typedef typename L::Scalar S;
   typedef typename L::Vector V;
@@ -175,7 +175,7 @@ inline void check_affine(Rep &R, const Case &c, const Pre &a, const ref::V &t, c
     R.cmpV(c, "A applied to a point = L x + p", "", rv(applyA(m, x)), ref::add(ref::app(a.A, pts[k]), t), n, tolr<S>(a.kappa, a.fA * nx + nt));
     // undo: rcp(A) applied to A x is x
     R.cmpV(c, "rcp(A) applied to (A applied to x) = x", "", rv(applyA(inv, applyA(m, x))), pts[k], n, tolr<S>(a.kappa, a.fAinv * (a.fA * nx + nt)));
-    for (size_t j = 0; j < ps.size(); j++) {
+    for (int j = 0; j < np && j < (int)ps.size(); j++) {
       const Pre &b = ps[j].pre;
       const A mb(mk<L>(b.A), Mk<V>::v(ps[j].t));
       const LD ns = ref::norm(ps[j].t);
